@@ -179,10 +179,10 @@ Qed.
 
 (* C16_model_meets_spec for every nest without populate levels *)
 Theorem model_meets_spec_eager : forall c,
-  c16_wf c = true -> c16_region c = 0 -> forallb eager_level (k_levels c) = true ->
+  c16_wf c = true -> c16_region c = 0 -> forallb eager_level (k_levels c) = true -> k_ref c = false ->
   c16_holds c (c16_model c) = true.
 Proof.
-  intros c Hwf Hreg Heg.
+  intros c Hwf Hreg Heg Hkr.
   pose proof (wf_env_ok c Hwf) as Henv.
   assert (Hfacts : (length (k_levels c) <= 3)%nat
                    /\ forallb (fun k => 0 <=? key_rank k) (k_keys c) = true
@@ -210,8 +210,9 @@ Proof.
               (k_keys c) false (k_inputs c) (z_in c) Heg Henv (region0_int_ok c Hreg Hlen)) as [_ Hall].
   destruct (Hall k Hk) as (data & Hc & Hok).
   assert (Est : exec 0 (init_state (k_keys c) true false)
-                  (fst (run (traced c) (k_zshape c) (n_pop (k_levels c)) (k_skip c) (k_levels c) 0 []
-                            (k_inputs c) {| th_z := z_in c; th_lab := lab0 |})) = st) by reflexivity.
+                  (fst (run false (traced c) (k_zshape c) (n_pop (k_levels c)) (k_skip c) (k_levels c) 0 []
+                            (k_inputs c) {| th_z := z_in c; th_lab := lab0 |})) = st).
+  { unfold st, c16_events. rewrite Hkr. reflexivity. }
   rewrite Est in Hc.
   rewrite (files_of_alt c st k). fold (content st k). rewrite Hc, rows_of_V_rows.
   apply trace_ok_of_spec; auto. lia. apply traced_in; auto.
